@@ -193,6 +193,10 @@ ModelPtr buildApi(const IrModel &m);
 // Canonical dump of the IR in exactly the format of vh::dumpModel (the reference for C02/C14).
 std::string dumpIr(const IrModel &m, const DumpOptions &o = DumpOptions());
 
+// A copy of the IR with every child list (components, variables, resets, units, unit children, connections, maps)
+// shuffled; content identical.
+IrModel permuteIr(const IrModel &src, Rng &rng);
+
 // Required interface of variable (c, name) from the component tree and connections: "", "public", "private", "public_and_private"
 std::string requiredInterface(const IrModel &m, int comp, const std::string &var);
 bool reachable(const IrModel &m, int c1, int c2);
